@@ -1489,6 +1489,33 @@ def evaluate(ctx, cases):
             ctx.fail(c, "output-cannot-be-judged", f"the harness could not judge what evo returned: {type(e).__name__}: {str(e)[:200]}")
 
 
+def f19_probe(ctx):
+    """Finding F19 (DESIGN.md section 6): the all-pairs branch of filter_pairs_by_path subtracts two accumulated path
+    lengths, so a short step after a very long leg is lost. Two fixed, exactly representable inputs, judged directly
+    against the property sentence ("every i that has such a j is reported once"); listed in known_findings.json by
+    exactly these inputs. Not part of the model streams (no driver line), run after shrinking."""
+    import numpy as np
+    from evo.core import filters
+
+    def pose(p):
+        t = np.eye(4)
+        t[:3, 3] = p
+        return t
+    for name, pos, delta in (("integer-legs", [[0.0, 0.0, 0.0], [2.0 ** 53, 0.0, 0.0], [2.0 ** 53, 1.0, 0.0]], 1.0),
+                             ("float-legs", [[0.0, 0.0, 0.0], [2.0 ** 30, 0.0, 0.0], [2.0 ** 30, 3 * 2.0 ** -23, 0.0]], 3 * 2.0 ** -23)):
+        case = {"kind": "f19-probe", "name": name, "pos": pos, "delta": delta, "tol": 0.0, "all_pairs": True}
+        try:
+            got = [tuple(int(x) for x in pr) for pr in filters.filter_pairs_by_path([pose(p) for p in pos], delta, 0.0, all_pairs=True)]
+        except Exception as e:      # noqa: BLE001
+            got = "EXC:" + type(e).__name__
+        ctx.count("dist", "f19-probe:" + name)
+        if got == "EXC:FilterException" or (isinstance(got, list) and (1, 2) not in got):
+            ctx.fail(case, "every-i-reported", f"{name}: pose 1 has the partner pose 2 at path length exactly delta={delta} "
+                     f"(tolerance 0) but all-pairs returned {got}", {"f19_fixed_input": name})
+        elif not isinstance(got, list):
+            ctx.fail(case, "unexpected-exception", f"{name}: {got}", {})
+
+
 def check(ctx):
     lean = core.lean_side(ctx.prop, ctx.tier)
     core.drift(ctx, MODELLED)
@@ -1496,6 +1523,7 @@ def check(ctx):
     for a in range(0, len(cases), 4000):
         evaluate(ctx, cases[a:a + 4000])
     core.shrink_all(ctx, shrink, evaluate)
+    f19_probe(ctx)
     return core.finish(
         ctx, lean, rule=RULE,
         open_clauses=[
